@@ -474,7 +474,7 @@ func ruleC13SharedDocument(c *Ctx) {
 // and a data race); a nested execution whose wait group is not chained loses the happens-before edge to the caller
 func init() { register("C13", ruleC09ParsedImmutable, ruleC14NestedWaits) }
 
-func init() { register("C13", ruleC13ParallelGuard); register("C10", ruleC13ParallelGuard) }
+func init() { register("C13", ruleC13ParallelGuard); register("C10", ruleC13ParallelGuard); register("C14", ruleC13ParallelGuard) }
 
 // ruleC13ParallelGuard: the ON expression is evaluated from several goroutines only when it cannot touch query state.
 func ruleC13ParallelGuard(c *Ctx) {
